@@ -133,13 +133,49 @@ def run_unit(unit: dict) -> dict:
         if idx % 3 == 1:
             from zmon.gen import history as hg
 
-            hg.evolve_files(root, rng)
-            if db.cli(root, "db", "reindex").rc != 0:
-                acc.inconclusive.append("db reindex after edits failed")
-                return acc.result()
+            import datetime as _dt
+            import re as _re
+
+            d1 = TODAY + _dt.timedelta(days=rng.choice([1, 2, 30]))
+            with frozen(d1):
+                hg.evolve_files(root, rng)
+                if db.cli(root, "db", "reindex").rc != 0:
+                    acc.inconclusive.append("db reindex after edits failed")
+                    return acc.result()
             acc.count("incrementally_updated_indexes")
+            if idx % 2 == 1:
+                # second round on a later day: every note that was stamped in round one is edited AGAIN
+                # (its stamp is replaced, the only route on which the index body is re-assembled from words)
+                stamp = d1.strftime("%y%m%d")
+                n_re = 0
+                for p_ in hg.zo_files(root):
+                    t0 = p_.read_text()
+                    t1, k = _re.subn(r"(?m)^(\s*[-ox~<>] (?:P\d )?" + stamp + r" \d{6}#\w{2,3} .*\S)[ \t]*$", r"\1 again", t0)
+                    if k:
+                        p_.write_text(t1)
+                        c_ = harness.compile_path(root, p_.relative_to(root))
+                        if c_.exc is not None or c_.parser_errors:
+                            p_.write_text(t0)
+                        else:
+                            n_re += k
+                if n_re:
+                    with frozen(d1 + _dt.timedelta(days=rng.choice([1, 7]))):
+                        if db.cli(root, "db", "reindex").rc != 0:
+                            acc.inconclusive.append("second db reindex after edits failed")
+                            return acc.result()
+                    acc.count("restamped_notes", n_re)
         dump = db.dump_index(root)
         byz = dump.by_zid()
+        # the notes as the compiler produces them from the pages on disk NOW (the statement speaks of "every note the compiler can produce")
+        on_disk = {}
+        for p_ in sorted(root.rglob("*.zo")):
+            if ".zorg" in p_.parts:
+                continue
+            c_ = harness.compile_path(root, p_.relative_to(root))
+            if c_.exc is None and not c_.parser_errors:
+                for fn_ in c_.page.notes:
+                    if fn_.zid:
+                        on_disk[fn_.zid] = fn_
         files = {rel: (root / rel).read_text() for rel in z.pages if (root / rel).exists()}
         # own metadata by (page, line), known from the abstract pages (only for indexes built by `db create` alone)
         own_by_pl = {} if idx % 3 == 1 else {(rel, e.line_no): e for rel, es in z.expected().items() for e in es}
@@ -200,6 +236,11 @@ def run_unit(unit: dict) -> dict:
                             diffs.append("kind")
                         if n.body != row["body"]:
                             diffs.append("body")
+                        fn_ = on_disk.get(n.zid)
+                        if fn_ is not None:
+                            acc.count("select.compared_with_page_on_disk")
+                            if n.body == row["body"] and n.body != fn_.body:
+                                diffs.append("body (emitted text vs the note compiled from the page on disk)")
                         if row["kind"] not in "x~-" and (n.todo_payload is None or n.todo_payload.priority != row["priority"]):
                             diffs.append("priority")
                         if n.create_date.isoformat() != row["create"] or n.modify_date.isoformat() != row["modify"]:
